@@ -391,8 +391,12 @@ func (x *Exec) checkFrame(fr *Frame, fc *FuncContract, r RetEdge, envPre *SpecEn
 				v := envPre.eval(a)
 				switch u := v.T.Underlying().(type) {
 				case *types.Pointer:
-					for j := range e.layout(u.Elem()) {
-						key, _ := e.heapKey("H", u.Elem(), j)
+					el := u.Elem()
+					if rt := e.readerType(); rt != nil && e.bufferType() != nil && types.Identical(el, rt) {
+						el = e.bufferType() // *bytes.Reader shares the ghost stream layout of bytes.Buffer
+					}
+					for j := range e.layout(el) {
+						key, _ := e.heapKey("H", el, j)
 						allowed[key] = append(allowed[key], v.C[0])
 					}
 				case *types.Slice:
